@@ -62,6 +62,8 @@ class FakeConn:
                 self.peer.c2p.append(line.decode())
                 parts = line.decode().split(' ', 2)
                 s.log(ev='io_send', action=parts[0], data=parts[2] if len(parts) > 2 else None)
+        if s.me() is not None and not s.aborting:
+            s.yield_('io.sent')     # the peer may answer before the sender executes its next statement
 
     def readline(self, timeout=None):
         s = self.w.sched
